@@ -1256,6 +1256,9 @@ def _effects():
     E.append(("model.add_boundary(b_c, type='sink', lb=0, ub=7)", None, lambda w, m, h: m.add_boundary(h["mets"]["b_c"], type="sink", lb=0.0, ub=7.0), boundary("SK_b_c", "b_c", 0.0, 7.0, (R + "R1", R + "R2")), (R + "SK_b_c.",), None))
     E.append(("model.add_boundary(b_c, type='leak', reaction_id='LK_b', lb=-2, ub=0)", None, lambda w, m, h: m.add_boundary(h["mets"]["b_c"], type="leak", reaction_id="LK_b", lb=-2.0, ub=0.0),
               boundary("LK_b", "b_c", -2.0, 0.0, (R + "R1", R + "R2")), (R + "LK_b.",), None))
+    # identifiers: the object is found under the new identifier, everything that refers to it still does
+    E.append(("R1.id = 'R1x'", None, lambda w, m, h: _set(h["R1"], "id", "R1x"), {R + "R1._id": "R1x"}, ("rename", R + "R1", R + "R1x"), None))
+    E.append(("b_c.id = 'b2_c'", None, lambda w, m, h: _set(h["mets"]["b_c"], "id", "b2_c"), {M + "b_c._id": "b2_c"}, ("rename", M + "b_c", M + "b2_c"), None))
     E.append(("model.add_metabolites([z_c])", None, OPS["add_metabolites"][1], {Mo + "metabolites": ("list", tuple(sorted(M + x for x in ("EX_a", "a_c", "a_e", "b_c", "c_c", "z_c")))), M + "z_c._model": "Model:toy", M + "z_c._reaction": _cs()}, (M + "z_c.",), None))
     return E
 
@@ -1286,8 +1289,32 @@ def run_effects(prog) -> Tuple[List[str], int]:
             raise AnalysisError(f"C02.effect: `{what}` leaves the solver stand-in: {exc}")
         n += 1
         after = snapshot(m, skip)
+        if may_appear[:1] == ("rename",):
+            # the object is shown under its new label: read the state with the old label put back, everything that
+            # referred to the object must still do so and nothing but the identifier may differ
+            _, old_label, new_label = may_appear
+            may_appear = ()
+
+            def relabel(v):
+                if isinstance(v, str):
+                    return old_label if v == new_label else v
+                if isinstance(v, tuple):
+                    return tuple(relabel(x) for x in v)
+                return v
+
+            def resort(v):
+                if isinstance(v, tuple) and len(v) == 2 and v[0] in ("list", "set", "dict") and isinstance(v[1], tuple):
+                    return (v[0], tuple(sorted((resort(x) for x in v[1]), key=repr)))
+                if isinstance(v, tuple):
+                    return tuple(resort(x) for x in v)
+                return v
+
+            after = {(old_label + k[len(new_label):] if k.startswith(new_label + ".") else k): resort(relabel(v)) for k, v in after.items()}
+            before = {k: resort(v) for k, v in before.items()}
         solver_cell = lambda k: k.startswith(("var ", "cons ")) or k == "objective" or k.endswith("._solver")  # noqa: E731
         for k, v in want.items():
+            if v is None:
+                continue  # a cell that only re-labels the object (its members are shown by identifier)
             if k not in after:
                 out.append(f"`{what}`: afterwards there is no {k} (documented: {v!r})")
             elif after[k] != v:
@@ -1302,6 +1329,9 @@ def run_effects(prog) -> Tuple[List[str], int]:
                     out.append(f"`{what}`: {k} = {after[k]!r:.80} appears, which the operation does not document")
             elif before[k] != after[k]:
                 out.append(f"`{what}` also changes {k}: {before[k]!r:.100} -> {after[k]!r:.100} (everything the documentation does not name has to stay as it was)")
+        x02, x01 = split_invariants(m)
+        for f in (x02 + x01)[:2]:
+            out.append(f"`{what}`: afterwards {f}")
         want_obj = before.get("objective") if objective is None else _objective_of(before, *objective)
         if after.get("objective") != want_obj:
             out.append(f"`{what}`: afterwards the objective is {after.get('objective')!r:.160}, " + ("it was" if objective is None else "documented:") + f" {want_obj!r:.160}")
@@ -1351,7 +1381,7 @@ def run_effects(prog) -> Tuple[List[str], int]:
 
 def check_effects(ctx, rule: str) -> None:
     fn = ctx.prog.func("cobra.core.model", "Model.add_boundary")
-    anchors = (("add_boundary", fn), ("objective_coefficient", ctx.prog.func("cobra.util.solver", "linear_reaction_coefficients")), ("objective", ctx.prog.func("cobra.util.solver", "set_objective")), ("bound", ctx.prog.func("cobra.core.reaction", "Reaction.bounds")),
+    anchors = (("add_boundary", fn), ("objective_coefficient", ctx.prog.func("cobra.util.solver", "linear_reaction_coefficients")), ("objective", ctx.prog.func("cobra.util.solver", "set_objective")), ("bound", ctx.prog.func("cobra.core.reaction", "Reaction.bounds")), ("R1.id =", ctx.prog.func("cobra.core.reaction", "Reaction._set_id_with_model")), ("b_c.id =", ctx.prog.func("cobra.core.metabolite", "Metabolite._set_id_with_model")),
                ("", ctx.prog.func("cobra.core.reaction", "Reaction.add_metabolites")))
     found, n = run_effects(ctx.prog)
     if found:
